@@ -8,7 +8,7 @@ RULE = ('same histories as C06 (v5, v9, IPFIX datagrams with 0..60 records per s
         'unknown-template sets) through the real pipe with a recording transport, plus byte-level mutants '
         '(truncations, inflated counts/lengths); compared per datagram: error class, number of Send calls, and the '
         'bytes/packets columns of each message in order; oracle on the implementation alone: a v5 datagram never '
-        'yields more messages than (len-24)/48, any datagram never more messages than bytes; sFlow datagrams (C09 generator) and '
+        'yields more messages than (len-24)/48, any datagram never more messages than bytes; none invented: truncated / inflated v9 and IPFIX datagrams never yield more messages than the model counts complete records physically present (Spec/Present.v, c07_nf_none_invented); sFlow datagrams (C09 generator) and '
         'mutants of their sample count / truncations: one message per flow or expanded flow sample, none for counter / drop '
         'samples or empty slots. '
         'a third of the generated histories also run through the pipe AS cmd/goflow2 ASSEMBLES IT (Prometheus template system, Prometheus and panic wrappers around producer and decoder). '
@@ -82,6 +82,65 @@ def sflow_part(chk):
     chk.samples.append(dict(stream='sflow', input=lines[0][:400], impl=project(impl[0])[:300], model=project(mod[0])[:300]))
 
 
+def present_part(chk):
+    """none invented (c07_nf_none_invented): for truncated datagrams and datagrams with inflated header counts, set
+    lengths or template-claimed sizes, the number of messages the implementation emits is at most the number of complete
+    records physically present, computed by the model from the bytes and the exporter's templates (Spec/Present.v,
+    driver c07p_run). Every set boundary +-1, every 16-bit word of the set headers inflated."""
+    n = dict(quick=120, thorough=2500)[chk.tier]
+    rng = random.Random(chk.seed * 31 + 77)
+    base = [a for a, _ in model_gen('C06', 0, chk.seed + 13, 0, n)]
+    lines = []
+    for a in base:
+        f = a.split(' ')
+        head, body = f[:3], f[3:]
+        quads = [body[i:i + 4] for i in range(0, len(body) - 3, 4)]
+        if not quads:
+            continue
+        for _ in range(6):
+            k = rng.randrange(len(quads))
+            d = bytes.fromhex(quads[k][3][1:])
+            if len(d) < 8:
+                continue
+            c = rng.randrange(4)
+            if c == 0:
+                m = d[:rng.randrange(4, len(d))]                       # truncation anywhere
+            elif c == 1:
+                m = d + bytes(rng.randrange(256) for _ in range(rng.choice([1, 3, 4, 47, 48, 200])))   # bytes behind the message
+            elif c == 2:
+                pos = rng.randrange(2, min(len(d) - 1, 40), 2)         # a header / first-set word inflated
+                m = d[:pos] + rng.choice([0xffff, 0x7fff, 1000, len(d), len(d) + 1]).to_bytes(2, 'big') + d[pos + 2:]
+            else:
+                pos = rng.randrange(0, len(d) - 1, 2)                  # any aligned word inflated
+                m = d[:pos] + rng.choice([0xffff, 1000, 0]).to_bytes(2, 'big') + d[pos + 2:]
+            q = [list(x) for x in quads[:k + 1]]
+            q[k][3] = '=' + m.hex()
+            lines.append(' '.join(head + [t for x in q for t in x]))
+    impl = impl_run(chk.harness, lines, timeout=120.0)
+    pres = model_run('C07P', lines)
+    chk.evals += len(lines)
+    chk.count('none-invented: truncations / inflations judged by the present count', len(lines))
+    tight = 0
+    for a, o, p in zip(lines, impl, pres):
+        so, sp = split_steps(o), split_steps(p)
+        if len(so) != len(sp) or not so:
+            continue
+        try:
+            present = int(sp[-1].split(' ')[0][1:], 16)
+        except Exception:
+            continue
+        _, _, msgs = step_msgs(so[-1])
+        if len(msgs) == present and present > 0:
+            tight += 1
+        if len(msgs) > present:
+            chk.record('scopeA', dict(concrete=True, input=a[:30000], impl='%d messages' % len(msgs), expected='at most %d (complete records present)' % present,
+                       what='a truncated / inflated datagram yields more messages than complete records are physically present in it'), {})
+    chk.notes.append('none-invented: %d of %d mutated datagrams yield exactly as many messages as records present' % (tight, len(lines)))
+
+
 def run(chk):
+    def extra(c):
+        sflow_part(c)
+        present_part(c)
     return run_pipe_property(chk, sys.modules[__name__], STREAMS, dict(quick=1500, thorough=30000), oracle=oracle,
-                             extra=sflow_part)
+                             extra=extra)
